@@ -32,7 +32,9 @@ MANIFEST = {
     "technique": "exhaustive fault injection at every filesystem event of generated append shapes (Hypothesis draws the shapes, k is enumerated), differential against the pre-append content",
     "text": "Every filesystem call issued by an append before the summary metadata starts being rewritten is failed once (and "
             "every write once more half-way); after each failure a fresh open must see exactly the old content (or exactly "
-            "old+new if the append returned normally), and no pre-existing data file may ever be opened for writing.",
+            "old+new if the append returned normally), no pre-existing data file may ever be opened for writing, and the summary "
+            "is opened for writing only after the last data-file event. Histories include a removed row group; the caller's I/O is "
+            "given as two callables or as an fsspec filesystem (renames and removals are events too).",
     "note": "Trusted: the fault layer (vf/faultfs.py) and plain file copies of the base dataset. Exhaustive in k per generated "
             "shape; the shapes themselves are sampled.",
 }
